@@ -268,6 +268,14 @@ def run_hypothesis(
         col.violation(v.signature, v.message, v.case)
     except hypothesis.errors.Unsatisfiable as exc:
         col.errors.append(f"hypothesis unsatisfiable: {exc}")
+    except hypothesis.errors.Flaky:
+        # The oracle failed on a generated case but not when the very same case was run again in this process: the
+        # behaviour of the code under test depends on state left behind by earlier cases.  What the oracle saw is real.
+        if "v" not in last:
+            raise
+        v = last["v"]
+        col.violation(v.signature, v.message + " [not reproduced when the same case was run again in the same process: "
+                      "the outcome depends on state left behind by earlier cases]", v.case)
 
 
 def guard_call(col: Collector, case: Any, fn: Callable[[], None]) -> None:  # noqa: ANN401
